@@ -48,7 +48,9 @@ ArgOutcome(kind, src) ==
   IF tc \in {"str", "bool"} \/ sc \in {"str", "bool"} THEN (IF tc = sc THEN "conv" ELSE "unspecified")
   ELSE "conv"
 
-CallForms == {"func", "method", "three", "func2"}      \* func2: a function with two results (the first counts)
+CallForms == {"func", "method", "three", "func2",      \* func2: a function with two results (the first counts)
+              "vthenp"}     \* a value-receiver method called on a value-injected object and then on a pointer-injected
+                            \* object of the same type (whose method set also holds pointer-receiver methods)
 
 StoreCells == {[what |-> "store", path |-> p, kind |-> k, src |-> s, outcome |-> StoreOutcome(p, k, s)] :
                  p \in Paths, k \in Kinds, s \in Sources}
